@@ -595,8 +595,10 @@ func instantiate(t *rapid.T, p string) (string, []bool) {
 		mask = append(mask, true)
 	}
 	for _, s := range segs[1:] {
+		// a '/' is never probed: replacing it changes the segmentation, and an
+		// expression with an open end may then legitimately match another alignment
 		u += "/"
-		mask = append(mask, true)
+		mask = append(mask, false)
 		if paramShaped(s) {
 			v := rapid.SampledFrom(values).Draw(t, "value")
 			u += v
